@@ -357,6 +357,34 @@ def replace_all_uses_with(
         replacements = (replacements,)
     if len(values) != len(replacements):
         raise ValueError("The number of values and replacements must match.")
+    # Check all values first so that no value is replaced when one of them is rejected
+    new_owners: dict[int, _core.Graph | None] = {}
+    for value, replacement in zip(values, replacements):
+        if not value.is_graph_output():
+            continue
+        if not replace_graph_outputs:
+            raise ValueError(
+                f"{value!r} is an output of a graph. "
+                "Set replace_graph_outputs=True or replace the graph output first before "
+                "calling replace_all_uses_with."
+            )
+        # The replacement becomes an output of value.graph. It must not be owned by
+        # another graph, neither now nor through an earlier pair of this call.
+        if id(replacement) in new_owners:
+            owner = new_owners[id(replacement)]
+        elif (
+            replacement.is_graph_input()
+            or replacement.is_graph_output()
+            or replacement.is_initializer()
+        ):
+            owner = replacement.graph
+        else:
+            owner = None
+        if owner is not None and owner is not value.graph:
+            raise ValueError(
+                f"{replacement!r} is owned by a different graph and cannot replace the graph output {value!r}."
+            )
+        new_owners[id(replacement)] = value.graph
     for value, replacement in zip(values, replacements):
         value.replace_all_uses_with(replacement, replace_graph_outputs=replace_graph_outputs)
 
